@@ -225,6 +225,31 @@ Theorem C07_decode_agrees : forall uni step use_tbq, step = stream_step \/ step 
 Proof. exact decode_agrees. Qed.
 Print Assumptions C07_decode_agrees.
 
+(* The same agreement by content, for arbitrary traffic (including other messages before and after in the same slot):
+   (a) whatever either reader delivers from ANY line sequence decodes to decode_content of its own payload and bits;
+   (b) decode( *parts ) of the lines of a complete message, in any order, is decode_content of the payloads and bits
+       concatenated in fragment-number order;
+   (c) for lines that parse to a C03 well-formed schedule the reader delivers what the C03 specification prescribes
+       (payload / bits of each delivery = those concatenations) and each delivery decodes by that content. *)
+Theorem C07_decode_by_content : forall uni step use_tbq, step = stream_step \/ step = queue_step ->
+  (forall lines st o d, In o (fst (rd_run uni step use_tbq st lines)) -> In d (fst o) ->
+     sentence_decode d = decode_content (a_payload d) (a_bits d)) /\
+  (forall parts fs sq ch, Forall2 line_ais parts fs -> complete_message sq ch fs ->
+     mmap snd (decode_api false parts) =
+     decode_content (flat_map a_payload (sort_by_frag fs)) (flat_map a_bits (sort_by_frag fs))) /\
+  (forall ls sch, WF sch -> rd_inputs uni use_tbq [] ls = schedule_lines sch ->
+     exists outs st,
+       rd_run uni step use_tbq rd_init ls = (outs, Ok st) /\
+       map (map delivery_of) (map fst outs) = spec_deliveries sch /\
+       Forall (Forall (fun d => sentence_decode d = decode_content (a_payload d) (a_bits d))) (map fst outs)).
+Proof.
+  exact (fun uni step use_tbq H =>
+    conj (delivered_decode_content uni step use_tbq (reader_loop_is_reader_loop step H))
+   (conj decode_api_content
+         (fun ls sch => wf_schedule_decode uni step use_tbq ls sch (reader_loop_is_reader_loop step H)))).
+Qed.
+Print Assumptions C07_decode_by_content.
+
 (* ---------------------------------------------------------------- the property *)
 
 Definition C07_statement : Prop :=
